@@ -402,6 +402,30 @@ theorem root_hash_merge (cfg : Config) (la ra : Option Str) (l r : List (Key × 
       | error e => simp [rootTagSync]
       | ok m => simp [rootTagSync, tagOf]
 
+/-- The deep-hash theorems at the entry point: `merge_with` of a right-hand mapping document (no
+duplicate keys) into a left-hand mapping document under hashes=DEEP (by rule, command line,
+`[defaults]` or built-in) yields a mapping whose key set is the union, in which keys not named by `r`
+keep their value, keys of `r` hold `Spec.Merged` (right-only: `r`'s value; shared: LEFT / RIGHT /
+recursive merge), and whose key order is `OrderOK`. -/
+theorem merge_with_deep_hash_spec (cfg : Config) (la ra : Option Str) (l r : List (Key × Node)) (m : Node)
+    (h : mergeWith cfg (.map la l) (.map ra r) = .ok m)
+    (hmode : hashMode (prepare cfg (.map ra r)) ⟨.map ra r, none, none⟩ = .ok .deep)
+    (hr : (keys r).Nodup) :
+    ∃ es, m = .map la es ∧
+      (∀ k, k ∈ keys es ↔ k ∈ keys l ∨ k ∈ keys r) ∧
+      (∀ k, k ∉ keys r → lookupKey k es = lookupKey k l) ∧
+      (∀ k rv, lookupKey k r = some rv →
+        Merged (prepare cfg (.map ra r)) (.map ra r) k (lookupKey k l) rv (lookupKey k es)) ∧
+      OrderOK l r es := by
+  rw [root_hash_merge, hmode] at h
+  simp only at h
+  obtain ⟨es1, hm1, hkeys⟩ := hash_deep_keys _ la l _ r m h
+  obtain ⟨es2, hm2, hkeep, hmerged⟩ := merge_content_eq_spec _ la l _ r m h hr
+  obtain ⟨es3, hm3, hord⟩ := merge_order_ok _ la l _ r m h hr
+  subst hm1
+  cases hm2; cases hm3
+  exact ⟨es1, rfl, hkeys, hkeep, hmerged, hord⟩
+
 /-- Well-formedness is closed under the merge: when neither side has duplicate keys the merged
 mapping has none either (so the `Nodup` hypothesis of the theorems above is again available for the
 result, e.g. for the next record merged into the same Array-of-Hashes element). -/
